@@ -21,7 +21,7 @@ def check(case: dict) -> Verdict:
 
 def enum_small(tier: str):
     """Every history of length <= L over a small alphabet, for a few configurations (window < / = / > recovery)."""
-    alphabet = [["fail", "TRANSIENT"], ["fail", "UNKNOWN"], ["succ"], ["allow"], ["adv", 1], ["adv_win", 0], ["adv_win_class", "UNKNOWN", 0], ["adv_rec", 0]]
+    alphabet = [["fail", "TRANSIENT"], ["fail", "UNKNOWN"], ["succ"], ["allow"], ["adv", 1], ["adv_win", 0], ["adv_win_class", "UNKNOWN", 0], ["adv_win_f", -1]]
     L = 5 if tier == "quick" else 6
     cfgs = [
         {"threshold": 2, "window": 4, "recovery": 4},
@@ -64,7 +64,7 @@ PROP = Property(
         "Model-based history generation: Hypothesis draws a breaker configuration (thresholds 1..4, class thresholds, trip_on "
         "None/empty/subsets/all, window <,=,> recovery timeout) and a history of up to 60 (quick) / 200 (thorough) operations "
         "over allow / record_success / record_failure(class) / record_cancel / state / clock advances, including symbolic "
-        "advances that age the oldest live failure to exactly window_s +/- 1 tick and reach the recovery boundary; after "
+        "advances that age the oldest live failure to exactly window_s +/- 1 tick / +/- 1 ns .. 1 ms and reach the recovery boundary likewise; after "
         "every operation the return value and .state must equal an independent reference model's (so the circuit opens at "
         "exactly the operation where the model's live count reaches a threshold). Plus exhaustive enumeration of all histories "
         "up to length 5/6 over an 8-letter alphabet for 3 configurations, and a stream with thresholds 64..100, bursts of up to 70 "
